@@ -121,7 +121,7 @@ def build():
         ],
         "checks": checks,
         "not_applicable": na,
-        "notes": "Exit protocol: 0 = all obligations discharged or listed in known_findings.json (KNOWN-FINDING lines); 1 = VIOLATION; 2 = ANALYSIS-ERROR (the analyser can no longer see the mechanism; never a property verdict). OFXTOOLS_VERIF_REPO overrides the analysed tree (default /repo).",
+        "notes": "Exit protocol: 0 = every obligation discharged, or listed in known_findings.json (KNOWN-FINDING lines), or left undecided (UNDECIDED property=<id> <rule>: <why> lines - the rule could not recognise its mechanism in this tree; recorded in the evidence, never a violation); 1 = VIOLATION (a recognised mechanism is recognisably wrong; the line above names file:line, rule and construct); 2 = ANALYSIS-ERROR (internal error of the analyser; never a property verdict). Rules work on canonicalised (flattened) functions and path-condition tables, see DESIGN.md section 10. OFXTOOLS_VERIF_REPO overrides the analysed tree (default /repo).",
     }
 
 
